@@ -5,7 +5,7 @@
    new record, path marked found) and that a record with a previous path is indexed under both names.  That each
    renamed file of a tree with pairwise distinct contents IS matched, and the behaviour of the following verify / diff
    / create runs, are carried by the lockstep correspondence and the oracle. *)
-From MHL Require Import Model.Commands Proofs.BaseFacts Proofs.RenameFacts.
+From MHL Require Import Model.Commands Proofs.BaseFacts Proofs.RenameFacts Proofs.ReloadFacts Proofs.NestedFacts.
 
 Theorem C17_found_only_on_identity : forall Hb C hs t np st nf x,
   In x (dr_found (dr_step Hb C hs t np st nf)) ->
@@ -66,3 +66,15 @@ Theorem C17_detection_complete : forall Hb C hs t sess newp nfp np nf nfe hr r c
   In nf (dr_found (detect_renames Hb C hs t sess newp nfp)).
 Proof. exact detect_renames_complete. Qed.
 Print Assumptions C17_detection_complete.
+
+(* when no recorded path is absent from the tree, rename detection has nothing to compare: `create -dr` is then the same
+   function as `create` -- same tree afterwards, same observation (exit code, generations written, reports, writes) --
+   for any nesting, formats, options and patterns.  So every theorem about `create` on an unchanged tree (C03, C04, C06,
+   C09 for flat and nested histories) holds verbatim with -dr. *)
+Theorem C17_dr_with_nothing_missing_is_plain_create : forall Hb matches C cdig ser (t : node C) hs req no_dh ip ifl,
+  load C cdig t = inl hs ->
+  let spec := set_patterns (latest_patterns (lh_gens (root_hist hs))) ip (pattern_file_lines ifl) in
+  diff_paths (expected_paths hs) (visited (events matches C spec [] t)) = [] ->
+  create_folder Hb matches C cdig ser t req no_dh true ip ifl = create_folder Hb matches C cdig ser t req no_dh false ip ifl.
+Proof. exact create_dr_nothing_missing. Qed.
+Print Assumptions C17_dr_with_nothing_missing_is_plain_create.
